@@ -1221,3 +1221,187 @@ pub fn real_executor_race(o: &Opts, rep: &mut Report) {
     }
     rep.extra.push(("real_executor_race".into(), summary));
 }
+
+// ---------------------------------------------------------------------------------------------
+// E4t: tight free-running race on take (round 8, `r8C19-b`)
+// ---------------------------------------------------------------------------------------------
+//
+// The controlled scheduler only yields at hooked accesses, and the free-running executions of the
+// scenarios above pay a thread spawn per execution. This workload keeps two or three delivering
+// threads alive and releases them together, tens of thousands of times, on a fresh
+// `take(n)(source)` each round, with nothing between the release and the racing deliveries: it
+// reaches windows between accesses that are not hooked at all. The source is a listenable one that
+// delivers from several threads at once (what a fan-in of interval members does) and stops
+// offering data once it has been told to stop. Oracle per round, on counters kept by the two
+// harness ends: data delivered <= n; at most one terminal to the sink and at most one to the
+// source; and once every thread is done, exactly one of each (more data were offered than n).
+
+pub fn tight_take_race(o: &Opts, rep: &mut Report) {
+    use std::sync::atomic::{AtomicBool, AtomicU64, AtomicUsize, Ordering};
+    struct Round {
+        sink: Arc<callbag::Sink<usize>>,
+        stopped: Arc<AtomicBool>,
+        /// deliveries into take in progress / whether two of them were ever in progress at once
+        in_flight: AtomicUsize,
+        overlapped: AtomicBool,
+    }
+    let rounds: u64 = o.cases.unwrap_or(if o.tier == "thorough" { 1_000_000 } else { 60_000 });
+    let nthr = 3usize;
+    let gen = Arc::new(AtomicU64::new(0));
+    let done = Arc::new(AtomicUsize::new(0));
+    let quit = Arc::new(AtomicBool::new(false));
+    let slot: Arc<Mutex<Option<Arc<Round>>>> = Arc::new(Mutex::new(None));
+    let mut over = 0u64;
+    let mut first: Option<(String, String, u64)> = None;
+    let mut raced = 0u64;
+    std::thread::scope(|sc| {
+        for t in 0..nthr {
+            let (gen, done, quit, slot) = (Arc::clone(&gen), Arc::clone(&done), Arc::clone(&quit), Arc::clone(&slot));
+            sc.spawn(move || {
+                let mut seen = 0u64;
+                loop {
+                    // wait for the next round
+                    let mut spins = 0u32;
+                    while gen.load(Ordering::Acquire) == seen {
+                        if quit.load(Ordering::Acquire) {
+                            return;
+                        }
+                        spins += 1;
+                        if spins > 2_000 {
+                            std::thread::yield_now();
+                        } else {
+                            std::hint::spin_loop();
+                        }
+                    }
+                    seen = gen.load(Ordering::Acquire);
+                    let r = slot.lock().unwrap().clone();
+                    if let Some(r) = r {
+                        for k in 0..2usize {
+                            if r.stopped.load(Ordering::Acquire) {
+                                break;
+                            }
+                            if r.in_flight.fetch_add(1, Ordering::AcqRel) > 0 {
+                                r.overlapped.store(true, Ordering::Release);
+                            }
+                            (r.sink)(callbag::Message::Data(t * 10 + k));
+                            r.in_flight.fetch_sub(1, Ordering::AcqRel);
+                        }
+                    }
+                    done.fetch_add(1, Ordering::AcqRel);
+                }
+            });
+        }
+        for i in 0..rounds {
+            let n = 1 + (i % 3) as usize;
+            let data = Arc::new(AtomicUsize::new(0));
+            let sink_terms = Arc::new(AtomicUsize::new(0));
+            let up_terms = Arc::new(AtomicUsize::new(0));
+            let stopped = Arc::new(AtomicBool::new(false));
+            let up_sink: Arc<Mutex<Option<Arc<callbag::Sink<usize>>>>> = Arc::new(Mutex::new(None));
+            let source: callbag::Source<usize> = {
+                let (up_terms, stopped, up_sink) = (Arc::clone(&up_terms), Arc::clone(&stopped), Arc::clone(&up_sink));
+                (move |m: callbag::Message<never::Never, usize>| {
+                    if let callbag::Message::Handshake(sink) = m {
+                        *up_sink.lock().unwrap() = Some(Arc::clone(&sink));
+                        let (up_terms, stopped) = (Arc::clone(&up_terms), Arc::clone(&stopped));
+                        sink(callbag::Message::Handshake(Arc::new(
+                            (move |m: callbag::Message<never::Never, usize>| {
+                                if let callbag::Message::Terminate | callbag::Message::Error(_) = m {
+                                    up_terms.fetch_add(1, Ordering::AcqRel);
+                                    stopped.store(true, Ordering::Release);
+                                }
+                            })
+                            .into(),
+                        )));
+                    }
+                })
+                .into()
+            };
+            let out = callbag::take(n)(source);
+            {
+                let (data, sink_terms) = (Arc::clone(&data), Arc::clone(&sink_terms));
+                out(callbag::Message::Handshake(Arc::new(
+                    (move |m: callbag::Message<usize, never::Never>| match m {
+                        callbag::Message::Data(_) => {
+                            data.fetch_add(1, Ordering::AcqRel);
+                        },
+                        callbag::Message::Terminate | callbag::Message::Error(_) => {
+                            sink_terms.fetch_add(1, Ordering::AcqRel);
+                        },
+                        _ => {},
+                    })
+                    .into(),
+                )));
+            }
+            let sink = up_sink.lock().unwrap().clone();
+            let sink = match sink {
+                Some(s) => s,
+                None => {
+                    rep.harness_faults.push("E4t: take did not subscribe its source".into());
+                    break;
+                },
+            };
+            let round = Arc::new(Round { sink, stopped: Arc::clone(&stopped), in_flight: AtomicUsize::new(0), overlapped: AtomicBool::new(false) });
+            *slot.lock().unwrap() = Some(Arc::clone(&round));
+            done.store(0, Ordering::Release);
+            gen.fetch_add(1, Ordering::AcqRel);
+            let t0 = std::time::Instant::now();
+            let mut stuck = false;
+            while done.load(Ordering::Acquire) < nthr {
+                std::hint::spin_loop();
+                if t0.elapsed().as_secs() > 20 {
+                    stuck = true;
+                    break;
+                }
+            }
+            if stuck {
+                // a watchdog, not a verdict
+                rep.inconclusive.push("E4t: a round did not finish within 20 s".into());
+                break;
+            }
+            *slot.lock().unwrap() = None;
+            *up_sink.lock().unwrap() = None;
+            let (d, st, ut) = (data.load(Ordering::Acquire), sink_terms.load(Ordering::Acquire), up_terms.load(Ordering::Acquire));
+            if round.overlapped.load(Ordering::Acquire) {
+                raced += 1;
+            }
+            let bad = if d > n {
+                Some(("take-over-delivered", format!("take({}) delivered {} data to its sink ({} threads racing, 2 deliveries each)", n, d, nthr)))
+            } else if st != 1 {
+                Some(("sink-not-terminated-exactly-once", format!("take({}): {} data delivered, the sink received {} terminals", n, d, st)))
+            } else if ut != 1 {
+                Some(("upstream-not-terminated-exactly-once", format!("take({}): {} data delivered, upstream received {} terminals", n, d, ut)))
+            } else if d != n {
+                Some(("take-under-delivered", format!("take({}) completed after {} data although {} were offered", n, d, 2 * nthr)))
+            } else {
+                None
+            };
+            if let Some((kind, detail)) = bad {
+                over += 1;
+                if first.is_none() {
+                    first = Some((kind.to_string(), detail, i));
+                }
+            }
+        }
+        quit.store(true, Ordering::Release);
+        gen.fetch_add(1, Ordering::AcqRel);
+    });
+    rep.evaluations += rounds;
+    rep.bump("tight-race rounds (take, 3 delivering threads)", rounds);
+    rep.bump("tight-race rounds in which two deliveries into take were in progress at once", raced);
+    if raced == 0 && rounds >= 1_000 {
+        // the workload observed no race at all (a single core?): it decided nothing
+        rep.inconclusive.push(format!("E4t: deliveries into take never overlapped in {} rounds", rounds));
+    }
+    if let Some((kind, detail, i)) = first {
+        let id = format!("E4t:C19:{}:{}", o.seed, i);
+        let replay = J::obj()
+            .set("case_id", J::s(&id))
+            .set("engine", J::s("E4t: tight free-running race on take (schedule-dependent: re-run the check)"))
+            .set("rounds_with_a_violation", J::i(over as i64))
+            .set("detail", J::s(&detail));
+        for _ in 0..over {
+            rep.add_violation("C19", &format!("taketight/{}", kind), &detail, &id, replay.clone());
+        }
+    }
+}
